@@ -810,6 +810,10 @@ func (p *Project) do(c Cmd, sems []CmdSem, specs []int, ref *Node, pre *World) (
 			}
 		}
 	}
+	if c.Kind != "stageadd" && c.Kind != "stagerm" {
+		// no command but stage add / remove touches a definition (spec 38), whatever else it is asked to show
+		specs = append(append([]int{}, specs...), want(38)...)
+	}
 	t := &Transition{Sems: sems, Pre: pre, Cmd: c, OK: res.Exit == 0, Post: post, Ref: ref, Specs: specs, Res: res, Obs: obs,
 		Info: map[string]interface{}{"cmd": strings.Join(append([]string{"dud"}, c.argv()...), " "), "cwd": c.Cwd, "exit": res.Exit}}
 	if res.Exit != 0 {
